@@ -5,6 +5,7 @@
 //! modes: exh <seed> <budget> <ulen> <plen> <mod> <res>   exhaustive strings over {00,'/','a',FF}
 //!        rand <seed> <n> <maxlen>                        random long strings
 //!        lits                                             unix_lit! / EMPTY literals and what is derived from them
+//!        fmt <seed> <rounds>                              from_format / path_join_fmt with non-&str argument kinds vs std format!
 //!        dirent <seed> <rounds>                          DirEntry::file_unix_name over real directories
 //!        case <seed> <_> <hex x> <hex y>                 one literal case (replay)
 //!        consequence                                      what the next operation does with parent_path's result
@@ -839,6 +840,217 @@ fn consequence() {
     println!("match_up_to walked {n} bytes over a {}-byte value", p.len());
 }
 
+// ------------------------------------------------------------------------------------------
+// fmt::Arguments consumers (from_format, path_join_fmt) driven with argument KINDS beyond &str:
+// chars of every UTF-8 width (incl. code points that are multiples of 0x100), integers / floats
+// with width, padding, radix, fill characters, nested format_args!, Display impls writing through
+// write_char / write_str / write_fmt in pieces, {:?} / {:#?}. Reference: the bytes std's format!
+// produces for the very same arguments.
+enum Piece {
+    C(char),
+    S(String),
+    N(i64, usize),
+}
+struct Pieces(Vec<Piece>);
+impl std::fmt::Display for Pieces {
+    fn fmt(&self, f: &mut std::fmt::Formatter<'_>) -> std::fmt::Result {
+        use std::fmt::Write;
+        for p in &self.0 {
+            match p {
+                Piece::C(c) => f.write_char(*c)?,
+                Piece::S(s) => f.write_str(s)?,
+                Piece::N(n, w) => write!(f, "{n:0w$}", w = *w)?,
+            }
+        }
+        Ok(())
+    }
+}
+/// honours width / fill / precision of the caller's spec
+struct Padded(String);
+impl std::fmt::Display for Padded {
+    fn fmt(&self, f: &mut std::fmt::Formatter<'_>) -> std::fmt::Result {
+        f.pad(&self.0)
+    }
+}
+#[derive(Debug)]
+#[allow(dead_code)]
+struct Rec {
+    name: String,
+    sep: char,
+    n: i32,
+    opt: Option<char>,
+    list: Vec<u8>,
+}
+
+const CHAR_POOL: [char; 24] = [
+    'a', '/', '.', ' ', '~', '\u{7f}', '\u{80}', '\u{e9}', '\u{ff}', '\u{100}', '\u{101}', '\u{200}', '\u{7ff}',
+    '\u{800}', '\u{3000}', '\u{4e00}', '\u{20ac}', '\u{ff00}', '\u{ffff}', '\u{10000}', '\u{1f600}', '\u{10ff00}',
+    '\u{10ffff}', '\0',
+];
+const FMT_RECV: [&[u8]; 4] = [b"", b"d", b"d/", b"/"];
+
+fn pick_char(r: &mut Rng, k: u64) -> char {
+    let n = CHAR_POOL.len() as u64;
+    if k < n * n {
+        return CHAR_POOL[(k % n) as usize];
+    }
+    match r.below(5) {
+        0 => *r.pick(&CHAR_POOL),
+        // a code point whose low byte is zero
+        1 => char::from_u32((r.below(0x10ff) as u32 + 1) << 8).unwrap_or('\u{100}'),
+        2 => char::from_u32(r.below(0x80) as u32).unwrap_or('a'),
+        _ => char::from_u32(r.below(0x11_0000) as u32).unwrap_or('\u{fffd}'),
+    }
+}
+fn pick_text(r: &mut Rng) -> String {
+    let n = r.below(9) as usize;
+    (0..n)
+        .map(|_| match r.below(8) {
+            0 => '/',
+            1 => *r.pick(&CHAR_POOL[..23]),
+            2 => '.',
+            _ => (b'a' + r.below(26) as u8) as char,
+        })
+        .collect()
+}
+
+/// one produced value against std's text for the same arguments
+fn judge_fmt(st: &mut St, op: &'static str, shape: &'static str, recv: &[u8], text: &[u8], got: Result<UnixString, String>) {
+    let single = text_single(text);
+    let nul_free = !text.contains(&0);
+    let tclass = if nul_free {
+        "text-nonul"
+    } else if single {
+        "text-endnul"
+    } else {
+        st.note("note_fmt_text_with_interior_nul_accepted");
+        "text-badnul"
+    };
+    let wide = if text.iter().any(|&b| b >= 0x80) { "multibyte" } else { "ascii" };
+    st.classes.note([op, "fmt-kinds", shape, tclass, wide, ""]);
+    // std formatted these arguments without panicking, so a panic here is the library's
+    let Some(v) = produced(st, op, recv, text, single, got) else { return };
+    let want: Option<Vec<u8>> = if op == "from_format" {
+        single.then(|| {
+            let mut w = text.to_vec();
+            if nul_free {
+                w.push(0);
+            }
+            w
+        })
+    } else {
+        // path_join_fmt: the documented boundary rule on NUL-free text
+        nul_free.then(|| {
+            let mut w = refm::join(&recv[..recv.len() - 1], text);
+            w.push(0);
+            w
+        })
+    };
+    if let Some(w) = want {
+        if v.as_slice() != w.as_slice() {
+            st.viol(op, "content-differs-from-formatted-text", recv, text, v.as_slice(), shape);
+        }
+    }
+}
+
+fn fmt_round(st: &mut St, r: &mut Rng, k: u64) {
+    let n = CHAR_POOL.len() as u64;
+    let c1 = pick_char(r, k);
+    let c2 = pick_char(r, if k < n * n { k / n } else { k });
+    let s1 = pick_text(r);
+    let s2 = pick_text(r);
+    let i1: i64 = match r.below(4) {
+        0 => *r.pick(&[0i64, 1, -1, 255, 256, i64::MAX, i64::MIN]),
+        1 => r.below(1000) as i64 - 500,
+        _ => r.next() as i64 >> r.below(60),
+    };
+    let u1: u8 = r.next() as u8;
+    let big: u128 = (r.next() as u128) << r.below(64);
+    let f1: f64 = match r.below(4) {
+        0 => *r.pick(&[0.0, -0.0, 1.5, f64::MAX, f64::MIN_POSITIVE, f64::INFINITY, f64::NAN]),
+        _ => (r.next() as i64 >> 20) as f64 / 1024.0,
+    };
+    let w = r.below(13) as usize;
+    let pr = r.below(6) as usize;
+    let bl = r.chance(1, 2);
+    st.origin = format!("k={k} c1={c1:?} c2={c2:?} s1={s1:?} s2={s2:?} i1={i1} u1={u1} big={big} f1={f1:?} w={w} pr={pr}").into_bytes();
+    st.origin2.clear();
+    let recvs: Vec<UnixString> = FMT_RECV.iter().filter_map(|b| mk(b)).collect();
+    macro_rules! fc {
+        ($shape:literal, $($fmt:tt)+) => {{
+            let text = format!($($fmt)+).into_bytes();
+            let g = vh::catch(|| UnixString::from_format(format_args!($($fmt)+)));
+            judge_fmt(st, "from_format", $shape, &[], &text, g);
+            for rv in &recvs {
+                let g = vh::catch(|| rv.path_join_fmt(format_args!($($fmt)+)));
+                judge_fmt(st, "path_join_fmt", $shape, rv.as_slice(), &text, g);
+            }
+        }};
+    }
+    // --- char
+    fc!("char", "{}", c1);
+    fc!("char-inline", "{c1}");
+    fc!("char-in-path", "/tmp/{}/x{}y", c1, c2);
+    fc!("char-debug", "{:?}", c1);
+    fc!("char-width", "{:>4}|{:<3}|{:^5}", c1, c2, c1);
+    fc!("char-width-runtime", "{:>w$}{:<1$}", c1, w);
+    fc!("u8-as-char", "{}", u1 as char);
+    // --- fill characters (written one char at a time by the padding code)
+    fc!("fill-ascii", "{:*>6}", s1);
+    fc!("fill-2byte", "{:\u{e9}<7}", s1);
+    fc!("fill-u0100", "{:\u{100}>5}", i1);
+    fc!("fill-u3000", "{:\u{3000}^9}", c1);
+    fc!("fill-u4e00", "{:\u{4e00}<w$}", s2);
+    fc!("fill-u10000", "{:\u{10000}>8.2}", s1);
+    // --- integers / floats / bool
+    fc!("int", "{}", i1);
+    fc!("int-width", "{:5}|{:<5}|{:^7}|{:05}", i1, u1, i1, u1);
+    fc!("int-hex", "{:x}/{:X}/{:#x}/{:#06x}", i1, u1, big, u1);
+    fc!("int-bin-oct", "{:#010b}.{:o}.{:+}", u1, i1, i1);
+    fc!("int-exp", "{:e}-{:E}", u1, i1);
+    fc!("int-width-runtime", "{:>w$}{:0w$}", i1, u1);
+    fc!("u128", "{}", big);
+    fc!("float", "{}|{:.3}|{:8.2}|{:e}|{:+.pr$}", f1, f1, f1, f1, f1);
+    fc!("bool", "{}{:>7}{:?}", bl, bl, bl);
+    // --- strings with specs, Debug
+    fc!("str-precision", "{:.2}|{:>8}|{:10.3}|{:w$.pr$}", s1, s2, s1, s2);
+    fc!("str-debug", "{:?}/{:?}", s1, s2);
+    fc!("string-owned", "{}{}", s1.clone(), String::from(c1));
+    fc!("str-trailing-nul-literal", "{}/{}\0", s1, i1);
+    fc!("option-vec-debug", "{:?}{:?}", Some(c1), vec![s1.as_str(), s2.as_str()]);
+    // --- nested format_args!, literal-only
+    fc!("nested", "{}/{}", format_args!("{}{}", s1, c1), format_args!("{:>4}", i1));
+    fc!("nested-deep", "{}", format_args!("{}", format_args!("<{}|{:\u{200}>3}>", c2, u1)));
+    fc!("literal-only", "plain/literal");
+    fc!("literal-multibyte", "dir-\u{100}\u{3000}/f");
+    fc!("empty", "");
+    // --- Display impls writing in pieces
+    let pieces = Pieces(vec![Piece::S(s1.clone()), Piece::C(c1), Piece::N(i1 % 1000, w.min(6)), Piece::C('/'), Piece::C(c2), Piece::S(s2.clone())]);
+    fc!("display-pieces", "{}", pieces);
+    fc!("display-pieces-twice", "{pieces}:{pieces:>30}");
+    let padded = Padded(format!("{s1}{c1}"));
+    fc!("display-pad", "{:>12}|{:\u{100}^10}|{:.1}", padded, padded, padded);
+    let rec = Rec { name: s2.clone(), sep: c1, n: i1 as i32, opt: Some(c2), list: vec![u1, 0, 255] };
+    fc!("derive-debug", "{:?}", rec);
+    fc!("derive-debug-pretty", "{:#?}", rec);
+    fc!("path-display", "{}", std::path::Path::new(&s1).join(&s2).display());
+    fc!("cow-box", "{}{}", std::borrow::Cow::Borrowed(s1.as_str()), s2.clone().into_boxed_str());
+}
+
+fn fmt_mode(seed: u64, rounds: u64) {
+    let mut st = St::new();
+    let mut r = Rng::new(seed);
+    let n = (CHAR_POOL.len() * CHAR_POOL.len()) as u64;
+    // the boundary table is walked from a seed-dependent position; later rounds are random
+    let start = if rounds >= n { 0 } else { seed % n };
+    for i in 0..rounds {
+        let k = if rounds >= n { i } else if i < rounds / 2 { (start + i * 25) % n } else { n + i };
+        fmt_round(&mut st, &mut r, k);
+    }
+    vh::count("fmt_kind_rounds", rounds);
+    st.finish();
+}
+
 fn main() {
     let a = vh::args();
     let num = |i: usize, d: u64| -> u64 { a.rest.get(i).and_then(|s| s.parse().ok()).unwrap_or(d) };
@@ -846,6 +1058,7 @@ fn main() {
         "exh" => exh(a.seed, num(0, 6) as usize, num(1, 4) as usize, num(2, 1), num(3, 0)),
         "rand" => rand(a.seed, a.budget, num(0, 8192) as usize),
         "dirent" => dirent(a.seed, a.budget),
+        "fmt" => fmt_mode(a.seed, a.budget),
         "case" => {
             let x = unhex(a.rest.first().map_or("-", |s| s.as_str()));
             let y = unhex(a.rest.get(1).map_or("-", |s| s.as_str()));
